@@ -111,6 +111,50 @@ def removeCells (g : UGraph) : List (Nat × Nat) → Option UGraph
     | none => none
     | some g' => removeCells g' rest
 
+/-! ### vocabulary of the generated definitions (`Gen/UGraphFns.lean`, written by `tools/rs2lean_ugraphfns.py`)
+The remaining petgraph operations under their own names (so far inlined in the functions below), `Result<_, UltraGraphError>`
+without its message, and the control-flow helpers of the translation. A generated function is a `do` block in the `Option`
+monad: `none` = the call panics. -/
+/-- `MatrixGraph::default()` / `new()`: no nodes, no cells -/
+def petNew : UGraph := {}
+/-- `MatrixGraph::with_capacity(c)`: the capacity only sizes the matrix (growth = identity on cells, see the header) -/
+def petWithCapacity (_c : Nat) : UGraph := {}
+/-- `add_node`: `NodeIndex::new(self.nodes.add(weight))`; the node weight (`true`) is not modelled -/
+def petAddNode (g : UGraph) : UGraph × Nat :=
+  let (ids', id) := g.ids.add
+  ({ g with ids := ids' }, id)
+/-- `node_count` = `IdStorage::len` (a checked subtraction) -/
+def petNodeCount (g : UGraph) : Option Nat := g.ids.len
+/-- `edge_count` = `nb_edges` -/
+def petEdgeCount (g : UGraph) : Nat := g.nbEdges
+/-- `clear`: allocator, matrix and edge counter reset; ultragraph's maps are not petgraph's business -/
+def petClear (g : UGraph) : UGraph := { g with adj := [], ids := {}, nbEdges := 0 }
+
+/-- `Result<α, UltraGraphError>`; the error message is not modelled -/
+inductive Res (α : Type) where
+  | ok (v : α) | err
+deriving DecidableEq, Repr
+def Res.isOk {α : Type} : Res α → Bool
+  | .ok _ => true
+  | .err => false
+def Res.toOption {α : Type} : Res α → Option α
+  | .ok v => some v
+  | .err => none
+/-- `Option::ok_or(err)` / `ok_or_else(|| err)` -/
+def okOr {α : Type} : Option α → Res α
+  | some v => .ok v
+  | none => .err
+/-- `for x in l { body }` where `body` updates the state `s` and may panic -/
+def forEach {α σ : Type} : List α → σ → (σ → α → Option σ) → Option σ
+  | [], s, _ => some s
+  | x :: xs, s, f => match f s x with
+    | none => none
+    | some s' => forEach xs s' f
+/-- `assert!(c)` / `debug_assert!(c)` (debug assertions are on in the harness build) -/
+def assertThat (c : Bool) : Option Unit := if c then some () else none
+/-- `a - b` on unsigned integers with overflow checks on -/
+def checkedSub (a b : Nat) : Option Nat := if b ≤ a then some (a - b) else none
+
 /-! ### `graph_like.rs` -/
 def containsNode (g : UGraph) (i : Nat) : Bool := (mGet g.indexMap i).isSome
 
@@ -207,7 +251,9 @@ def step (ver : Version) (g : UGraph) : Op → UGraph × Out
     | some n => (g, .bool (n == 0))
     | none => (g, .panic)
   | .numEdges => (g, .nat g.nbEdges)
-  | .allNodes => (g, .nats (sortNat (g.nodeMap.map (·.2))))
+  | .allNodes => match g.ids.len with    -- `Vec::with_capacity(self.graph.node_count())`: the count is evaluated
+    | some _ => (g, .nats (sortNat (g.nodeMap.map (·.2))))
+    | none => (g, .panic)
   | .allEdges => (g, .pairs (sortPairs g.allEdges))
   | .outgoing a => if !g.containsNode a then (g, .err) else (g, .nats (g.rowOf a))
   | .containsRoot => (g, .bool g.root.isSome)
